@@ -22,14 +22,17 @@ def thermo(pkg):
         _thermo['P'] = tmo.Thermo(tmo.Chemicals([chems['Water'], chems['Ethanol'], chems['Methanol']]), cache=False)
         _thermo['Q'] = tmo.Thermo(tmo.Chemicals([chems['Methanol'], chems['Ethanol'], chems['Water']]), cache=False)
         _thermo['R'] = tmo.Thermo(tmo.Chemicals([chems['Ethanol'], chems['Water']]), cache=False)
+        # same chemicals at the same positions as P, other models (another enthalpy / entropy datum for ethanol)
+        eth = tmo.Chemical('Ethanol', phase_ref='g', cache=False)
+        _thermo['P2'] = tmo.Thermo(tmo.Chemicals([tmo.Chemical('Water', cache=False), eth, tmo.Chemical('Methanol', cache=False)]), cache=False)
     return _thermo[pkg]
 
 
-PKG_CHEMS = {'P': [1, 2, 3], 'Q': [1, 2, 3], 'R': [1, 2]}
+PKG_CHEMS = {'P': [1, 2, 3], 'Q': [1, 2, 3], 'R': [1, 2], 'P2': [1, 2, 3]}
 
 UNIVERSES = {
-    'mc3': dict(names=['a', 'b', 'c'], pkg={'a': 'P', 'b': 'P', 'c': 'Q'}, nc=2, pkgs={'P': [1, 2], 'Q': [1, 2]}),
-    'mc2': dict(names=['a', 'b'], pkg={'a': 'P', 'b': 'P'}, nc=2, pkgs={'P': [1, 2], 'Q': [1, 2]}),
+    'mc3': dict(names=['a', 'b', 'c'], pkg={'a': 'P', 'b': 'P', 'c': 'Q'}, nc=2, pkgs={'P': [1, 2], 'Q': [1, 2], 'P2': [1, 2]}),
+    'mc2': dict(names=['a', 'b'], pkg={'a': 'P', 'b': 'P'}, nc=2, pkgs={'P': [1, 2], 'Q': [1, 2], 'P2': [1, 2]}),
     'big': dict(names=['a', 'b', 'c', 'd', 'e'], pkg={'a': 'P', 'b': 'P', 'c': 'Q', 'd': 'R', 'e': 'P'}, nc=3,
                 pkgs=PKG_CHEMS),
 }
@@ -79,6 +82,9 @@ class World:
 
     # ---- projection ---------------------------------------------------------------
     def _pkg(self, stream):
+        for p, th in _thermo.items():
+            if stream._thermo is th:
+                return p
         ids = tuple(stream.chemicals.IDs)
         for p, th in _thermo.items():
             if ids == tuple(th.chemicals.IDs):
@@ -368,6 +374,8 @@ class World:
             S[a['d']].link_with(S[a['x']], flow=a['flow'], phase=a['phase'], TP=a['TP'])
         elif op == 'unlink':
             S[a['x']].unlink()
+        elif op == 'reset_thermo':
+            S[a['x']]._reset_thermo(thermo(a['pkg']))
         elif op == 'read':
             return dict(diff=self.read_diff(S[a['x']], a['prop']))
         elif op == 'construct':
@@ -445,6 +453,8 @@ def random_op(universe, rng, st, ops):
         return op, dict(d=x, x=y)
     if op == 'read':
         return op, dict(x=x, prop=rng.choice(PROPS))
+    if op == 'reset_thermo':
+        return op, dict(x=x, pkg=rng.choice(sorted(universe['pkgs'])))
     if op == 'construct':
         return op, dict(x=x, k=rng.choice(['s', 'm']), price=rng.choice([0, 3, 7]), cf=rng.choice([0, 5, 11]))
     if op == 'link_with':
